@@ -16,7 +16,8 @@ def _run_c12(job):
     out = {"events": 0, "mism": [], "drift": []}
     try:
         rootcls = concretize_type(root, reg)
-        holdercls = concretize_type(holder, reg) if site in ("field", "pair") else None
+        lazy_holder = '"shared"' in __import__("json").dumps(dopts)      # shared Discriminator object: the holder is compiled at its first use
+        holdercls = concretize_type(holder, reg) if site in ("field", "pair") and not lazy_holder else None
         decoder = None
         for idx, ev in enumerate(beh):
             out["events"] += 1
@@ -31,6 +32,8 @@ def _run_c12(job):
                     if site == "config":
                         res = ["ok", abstract_value(rootcls.from_dict(d), reg)]
                     elif site in ("field", "pair"):
+                        if holdercls is None:
+                            holdercls = concretize_type(holder, reg)
                         res = ["ok", abstract_value(holdercls.from_dict({"f": d}), reg)]
                     else:
                         res = ["ok", abstract_value(decoder.decode(d), reg)]
